@@ -61,6 +61,12 @@ class Executor(Exec):
                 r = self.sum_over_range(node.args[0], st)
                 if r is not None:
                     return r
+            if f.id == "assume" and self.contract is not None and self.contract.kind == "lemma":
+                # explicit hypothesis of a lemma (listed in evidence as an assumption of that lemma)
+                c_ = self.cond(node.args[0], st)
+                st.pc.append(c_)
+                self.lib_used.add("lemma hypothesis introduced with assume(): " + ast.unparse(node.args[0])[:200])
+                return VNone()
             if f.id == "implies":
                 a = self.truth(st, self.eval(node.args[0], st))
                 if z3.is_false(z3.simplify(a)):
